@@ -26,6 +26,40 @@ type Step struct {
 	Cmds [][]byte `json:"cmds,omitempty"` // apply: one Update call; install: entries the donor applies before it snapshots
 	// install: snapshot format of the donor replica
 	DonorType int `json:"donor_type,omitempty"`
+	// Bulk (apply only): plain puts of large constant-filled values that precede Cmds in the same Update call; kept symbolic so that
+	// case / replay files stay small (materialised by expanded())
+	Bulk []BulkPut `json:"bulk,omitempty"`
+}
+
+type BulkPut struct {
+	Key  string `json:"key"`
+	Fill byte   `json:"fill"`
+	N    int    `json:"n"`
+}
+
+// expanded materialises the symbolic bulk puts into command bytes.
+func (c Case) expanded() Case {
+	has := false
+	for _, s := range c.Steps {
+		has = has || len(s.Bulk) > 0
+	}
+	if !has {
+		return c
+	}
+	n := c
+	n.Steps = make([]Step, len(c.Steps))
+	for i, s := range c.Steps {
+		if len(s.Bulk) > 0 {
+			var cmds [][]byte
+			for _, b := range s.Bulk {
+				cmds = append(cmds, marshal(&regattapb.Command{Table: []byte("t"), Type: regattapb.Command_PUT, Kv: &regattapb.KeyValue{Key: []byte(b.Key), Value: bytes.Repeat([]byte{b.Fill}, b.N)}}))
+			}
+			s.Cmds = append(cmds, s.Cmds...)
+			s.Bulk = nil
+		}
+		n.Steps[i] = s
+	}
+	return n
 }
 
 type Case struct {
@@ -345,6 +379,8 @@ func clip(s string, n int) string {
 }
 
 func run(c Case, o *vt.Obs) *vt.Failure {
+	orig := c
+	c = c.expanded()
 	w := buildWorld(c)
 	points := c.Points
 	if len(points) == 0 {
@@ -370,12 +406,12 @@ func run(c Case, o *vt.Obs) *vt.Failure {
 		fs := crashfs.New(fsmx.DataDir)
 		res, f := execute(c, w, fs, p)
 		if f != nil {
-			f.Case = narrowed(c, p)
+			f.Case = narrowed(orig, p)
 			return f
 		}
 		r, idx, f := afterCrash(c, w, fs, res.durable, prop, p)
 		if f != nil {
-			f.Case = narrowed(c, p)
+			f.Case = narrowed(orig, p)
 			return f
 		}
 		if res.crashedIn != "" {
@@ -395,7 +431,7 @@ func run(c Case, o *vt.Obs) *vt.Failure {
 			if err != nil && !fs.Crashed() {
 				_ = r.Close()
 				ff := vt.Failf(prop+"/reapply-error", int(p), "re-applying entries %d.. after crash at %d: %v", idx+1, p, err)
-				ff.Case = narrowed(c, p)
+				ff.Case = narrowed(orig, p)
 				return ff
 			}
 			cerr := r.Close()
@@ -404,7 +440,7 @@ func run(c Case, o *vt.Obs) *vt.Failure {
 				// the crash point was not reached: this was a clean close of the complete log
 				if cerr != nil {
 					ff := vt.Failf(prop+"/close-error", int(p), "Close: %v", cerr)
-					ff.Case = narrowed(c, p)
+					ff.Case = narrowed(orig, p)
 					return ff
 				}
 				durable2 = uint64(len(w.log))
@@ -412,7 +448,7 @@ func run(c Case, o *vt.Obs) *vt.Failure {
 			evals++
 			r2, idx2, f := afterCrash(c, w, fs, durable2, prop+"/second-crash", p)
 			if f != nil {
-				f.Case = narrowed(c, p)
+				f.Case = narrowed(orig, p)
 				return f
 			}
 			o.Label("second-crash")
@@ -421,13 +457,13 @@ func run(c Case, o *vt.Obs) *vt.Failure {
 		if err := reapply(r, w, idx+1, 3); err != nil {
 			_ = r.Close()
 			ff := vt.Failf(prop+"/reapply-error", int(p), "re-applying entries %d.. after crash at %d: %v", idx+1, p, err)
-			ff.Case = narrowed(c, p)
+			ff.Case = narrowed(orig, p)
 			return ff
 		}
 		f = checkState(r, w, uint64(len(w.log)), prop+"/after-reapply", int(p))
 		_ = r.Close()
 		if f != nil {
-			f.Case = narrowed(c, p)
+			f.Case = narrowed(orig, p)
 			return f
 		}
 	}
@@ -480,6 +516,59 @@ func narrowed(c Case, p int64) Case {
 	n.Points = []int64{p}
 	return n
 }
+
+// genBig: one Update call that first writes more than a memtable (16 MiB) of plain puts and then runs multi-key commands that read
+// the batch (transactions, prev_kv, count): pebble rotates and flushes the memtable on its own in the middle of the call, so crash
+// points fall between "the first part of the call is durable" and "the rest is".
+func genBig(t *rapid.T) Case {
+	pool := gen.NewPool(t, 2, 5, 64)
+	c := Case{RecoveryType: rapid.IntRange(0, 1).Draw(t, "rtype"), MaxPoints: 60, SecondSalt: 1, Depth: 1}
+	if vt.Thorough() {
+		c.MaxPoints = 200
+	}
+	pre := rapid.IntRange(0, 2).Draw(t, "pre")
+	for i := 0; i < pre; i++ {
+		c.Steps = append(c.Steps, Step{Op: "apply", Cmds: [][]byte{marshal(multiKey(t, pool))}})
+	}
+	big := Step{Op: "apply"}
+	total := 0
+	for i := 0; total < 17*1024*1024; i++ {
+		n := rapid.SampledFrom([]int{1024 * 1024, 1536 * 1024, 2 * 1024 * 1024}).Draw(t, "bigsize")
+		total += n
+		big.Bulk = append(big.Bulk, BulkPut{Key: fmt.Sprintf("big%02d", i), Fill: byte('a' + i%26), N: n})
+	}
+	// the first command after the bulk always reads the batch (a transaction that writes, or a put / range delete asking for the
+	// previous pairs), so the apply call has to look into what it has collected so far
+	switch rapid.IntRange(0, 2).Draw(t, "reader") {
+	case 0:
+		x := pool.Txn(t, "bigtxn", false)
+		x.Success = append(x.Success, &regattapb.RequestOp{Request: &regattapb.RequestOp_RequestPut{RequestPut: &regattapb.RequestOp_Put{Key: []byte("txn-marker"), Value: []byte("s"), PrevKv: true}}})
+		x.Failure = append(x.Failure, &regattapb.RequestOp{Request: &regattapb.RequestOp_RequestPut{RequestPut: &regattapb.RequestOp_Put{Key: []byte("txn-marker"), Value: []byte("f")}}})
+		big.Cmds = append(big.Cmds, marshal(&regattapb.Command{Table: []byte("t"), Type: regattapb.Command_TXN, Txn: x}))
+	case 1:
+		big.Cmds = append(big.Cmds, marshal(&regattapb.Command{Table: []byte("t"), Type: regattapb.Command_PUT, Kv: &regattapb.KeyValue{Key: []byte("big00"), Value: []byte("overwritten")}, PrevKvs: true}))
+	default:
+		big.Cmds = append(big.Cmds, marshal(&regattapb.Command{Table: []byte("t"), Type: regattapb.Command_DELETE, Kv: &regattapb.KeyValue{Key: []byte("big01")}, RangeEnd: []byte("big03"), Count: true}))
+	}
+	tail := rapid.IntRange(0, 2).Draw(t, "tail")
+	for i := 0; i < tail; i++ {
+		big.Cmds = append(big.Cmds, marshal(multiKey(t, pool)))
+	}
+	c.Steps = append(c.Steps, big)
+	post := rapid.IntRange(0, 2).Draw(t, "post")
+	for i := 0; i < post; i++ {
+		if rapid.Bool().Draw(t, "postsync") {
+			c.Steps = append(c.Steps, Step{Op: "sync"})
+		} else {
+			c.Steps = append(c.Steps, Step{Op: "apply", Cmds: [][]byte{marshal(multiKey(t, pool))}})
+		}
+	}
+	return c
+}
+
+func TestC04Big(t *testing.T)        { vt.Check(t, prop, genBig, run) }
+func TestC04BigReplay(t *testing.T)  { vt.Replay(t, prop, run) }
+func TestC04BigRegress(t *testing.T) { vt.Regress(t, prop, "testdata", run) }
 
 func TestC04(t *testing.T)        { vt.Check(t, prop, genCase, run) }
 func TestC04Replay(t *testing.T)  { vt.Replay(t, prop, run) }
